@@ -133,6 +133,43 @@ CHECKS['C06'] = dict(
     design='§5 C06',
     note=COMMON_NOTE + 'Model covers attribute values; the enclosing signature structure (apps/models/fields dictionaries) is exercised by the signature-level oracle, not modelled. json.dumps/loads are trusted.')
 
+CHECKS['C07'] = dict(
+    technique='Lean 4 proof (transaction model for every batch and crash point; monitor theorems over translated skeletons) + fault enumeration at every statement index',
+    text=('Transaction model of one SQLExecutor batch: proved for every statement list, database and crash index k that '
+          'under the rollback variant a failure leaves the database exactly as it was with the failing index in the '
+          'error (C07_atomic) and that a fault-free retry equals the uninterrupted run (C07_retry); the commit variant '
+          'is proved to persist the executed prefix (C07_commit_on_failure, finding F9 — repaired by a fix: commit). '
+          'Which variant is in force is read off the generated skeleton of SQLExecutor.finish_transaction on every run. '
+          'Over the generated skeleton of Evolver.evolve: the version/evolution records are written only if no task '
+          'execution failed, and a failing task makes the run raise — for every number of tasks and a fault in any call. '
+          'On the real code a database error is injected at EVERY write-statement index of every generated run '
+          '(rebuilds, index creation, model creation, deferred SQL, bookkeeping): snapshots, error payload, retry.'),
+    design='§5 C07',
+    note=COMMON_NOTE + 'SQLite transactional DDL is assumed (and observed). Separate transactions inside one run (model creation / each task / deferred SQL / bookkeeping) are findings F38/F39.')
+CHECKS['C08'] = dict(
+    technique='Lean 4 proof (invariant by induction over run histories) + differential correspondence of bookkeeping rows',
+    text=('Bookkeeping model of a series of runs and commands (EvolveAppTask.prepare choice of evolutions, '
+          '_save_project_sig, mark-evolution-applied, wipe-evolution). Proved for every state and every step: no '
+          '(app, label) is ever recorded twice and apps without a stored signature have no records (C08_once_step, '
+          'the invariant lifts to every history by induction), every executed label was unrecorded when the run was '
+          'prepared, fresh apps execute nothing, recorded labels are never executed again, a failed run records '
+          'nothing, records carry the version of their run; kernel-checked counterexample for mark-evolution-applied '
+          'on a never-evolved app (F40, predicted by the model and confirmed on the real code). Recorded rows and '
+          'executed labels after every step of generated histories are compared with the model.'),
+    design='§5 C08',
+    note=COMMON_NOTE + 'The model records what a task plans to apply; whether SQL is emitted for a re-recorded label depends on the signature diff (subset relation checked).')
+CHECKS['C17'] = dict(
+    technique='Lean 4 proof over translated control skeletons (finite monitors, analysis proved sound) + signal/statement trace check with fault at every index',
+    text=('Finite monitors evaluated by the kernel on the skeletons regenerated from Evolver.evolve, '
+          'EvolveAppTask.execute and _create_models, lifted to all executions (any task count, a fault in any call) by '
+          'reach_sound: evolving at most once and before any work; exactly one evolved after _save_project_sig on a '
+          'normal return; exactly one evolving_failed and no evolved on failure; applying/applied and creating/created '
+          'bracket the SQL and are never doubled. On the real code receivers on every public signal are interleaved '
+          'with the statement trace for fresh installs, upgrades, nothing-to-do runs and a failure at every write index; '
+          'payload equality of the pairs, no applied/created after the failing statement, lock value restored.'),
+    design='§5 C17',
+    note=COMMON_NOTE + 'Signal delivery (Django dispatch) is trusted; deferred index SQL of new models runs after created_models by design and is exempt.')
+
 NOT_YET = {}
 
 
